@@ -1,2 +1,170 @@
-import SyneTune.Model.Tuner
-/- placeholder: theorems follow -/
+import SyneTune.Lemmas.TunerC12
+import SyneTune.Lemmas.TunerNotify
+/-
+C13 (loop side) — trial failures are contained.
+Property theorems only; model `Model/Tuner.lean`, lemmas `Lemmas/TunerStruct.lean`
+(`SInv.failedNamed`), `Lemmas/TunerNotify.lean`, `Lemmas/TunerC12.lean`.
+Scheduler-side parts (the schedulers keep working after `on_trial_error`) are separate.
+-/
+namespace SyneTune.C13Loop
+open SyneTune SyneTune.Tuner AL
+
+/-- **Every failure is notified.** When the second loop of `_update_running_trials` comes to an
+item whose polled status is `failed`, `scheduler.on_trial_error(trial)` is the next call. -/
+theorem notified_failed (s : LState) (a : Ans) (t : Nat) (rest : List (Nat × St))
+    (hp : s.pc = .second) (hi : s.items = (t, .failed) :: rest) :
+    pending (step s a) = .schedError t ∧ (step s a).items = rest := by
+  have hn : next s a = { s with pc := .errorS, t := t, tSt := .failed, items := rest } := by
+    simp only [next, hp, hi, secondItem]
+  have : step s a = { next s a with log := (next s a).log ++ [pending (next s a)] } := by
+    rw [step_eq, hn]; simp [Pc.silent, hp]
+  rw [this, hn]
+  exact ⟨rfl, rfl⟩
+
+/-- the same for a trial that was stopped from outside (status `stopped` although the scheduler
+never said STOP) -/
+theorem notified_external_stop (s : LState) (a : Ans) (t : Nat) (rest : List (Nat × St))
+    (hp : s.pc = .second) (hi : s.items = (t, .stopped) :: rest) (hns : t ∉ s.schedStopped) :
+    pending (step s a) = .schedError t ∧ (step s a).items = rest := by
+  have hn : next s a = { s with pc := .errorS, t := t, tSt := .stopped, items := rest } := by
+    simp only [next, hp, hi, secondItem, hns, if_false]
+  have : step s a = { next s a with log := (next s a).log ++ [pending (next s a)] } := by
+    rw [step_eq, hn]; simp [Pc.silent, hp]
+  rw [this, hn]
+  exact ⟨rfl, rfl⟩
+
+/-- **… and only once.** `on_trial_error(t)` is only called while the run of `t` is open for the
+scheduler, and its return closes it (`kst t = dead`): no second `on_trial_error`, no
+`on_trial_result`, for that run (under B, K and the no-end-clash hypothesis, see
+`C01.notify_partial`; without the latter the scheduler hears `on_trial_remove` and then
+`on_trial_error`, `C01.notify_end_clash_counterexample`). -/
+theorem notified_once (c : Cfg) (as : List Ans)
+    (hB : Along BOk (init c) as) (hK : Along KOk (init c) as) (hN : Along NCOk (init c) as)
+    (hp : (run (init c) as).pc = .errorS) :
+    alookup (run (init c) as).t (run (init c) as).kst = some .live ∧
+    alookup (run (init c) as).t (step (run (init c) as) .ret).kst = some .dead := by
+  obtain ⟨hS, hI, hD⟩ := SKD_run c as hB hK hN
+  refine ⟨(notifyOK_of_inv hS hI hD).error hp, ?_⟩
+  have : (step (run (init c) as) .ret).kst = (next (run (init c) as) .ret).kst := by rw [step_eq]; split <;> rfl
+  rw [this]
+  simp only [next, hp]
+  exact alookup_aset_self _ _ _
+
+/-- **The run carries on while failures stay within the limit.** If, when the stopping condition
+is evaluated, the stopping criterion is false and the number of failed trials is at most
+`max_failures`, the loop starts another iteration. -/
+theorem continues (s : LState) (a a' : Ans) (hp : s.pc = .evalStop) (hw : s.cfg.crit.maxWallclock = none)
+    (hc : s.cfg.crit.eval s.status 0 s.cfg.keyCost = false) (hf : s.status.numFailed ≤ s.cfg.maxFailures) :
+    (step (step s a) a').pc = .loopStart := by
+  have h1 : step s a = { s with stopReached := false, pc := .loopHead } := by
+    rw [step_eq]
+    have : next s a = { s with stopReached := false, pc := .loopHead } := by
+      simp only [next, hp, hw, Option.isSome_none, Bool.false_eq_true, if_false, stopCond, hc, Bool.false_or]
+      have : decide (s.cfg.maxFailures < s.status.numFailed) = false := by simp; omega
+      rw [this]
+    rw [this]; simp [Pc.silent]
+  rw [h1, step_pc]
+  simp [next]
+
+/-- firstFailed finds a failed trial whenever there is one -/
+theorem firstFailed_spec (l : List (Nat × St)) (hn : (keys l).Nodup) :
+    (∀ t, firstFailed l = some t → alookup t l = some .failed) ∧
+    ((∃ t, alookup t l = some .failed) → (firstFailed l).isSome = true) := by
+  induction l with
+  | nil => exact ⟨fun t h => by simp [firstFailed] at h, fun ⟨t, h⟩ => by simp [alookup] at h⟩
+  | cons x xs ih =>
+    obtain ⟨k, v⟩ := x
+    simp only [keys, List.map_cons, List.nodup_cons] at hn
+    obtain ⟨ih1, ih2⟩ := ih hn.2
+    constructor
+    · intro t h
+      simp only [firstFailed] at h
+      by_cases hv : v = .failed
+      · simp only [hv, if_true, Option.some.injEq] at h
+        subst h; simp [alookup, hv]
+      · simp only [hv, if_false] at h
+        have := ih1 t h
+        have hne : t ≠ k := by
+          intro hc; subst hc
+          exact hn.1 ((hasKey_iff_mem_keys _ _).mp (by unfold hasKey; rw [this]; rfl))
+        simp [alookup, hne, this]
+    · rintro ⟨t, h⟩
+      simp only [firstFailed]
+      by_cases hv : v = .failed
+      · simp [hv]
+      · simp only [hv, if_false]
+        apply ih2
+        by_cases hc : t = k
+        · subst hc; simp [alookup] at h; exact absurd h hv
+        · exact ⟨t, by simpa [alookup, hc] using h⟩
+
+/-- a positive count exhibits an entry -/
+theorem exists_of_numIn_pos (ts : TStatus) (p : St → Bool) (h : 0 < ts.numIn p) (hn : (keys ts.last).Nodup) :
+    ∃ t st, alookup t ts.last = some st ∧ p st = true := by
+  unfold TStatus.numIn at h
+  obtain ⟨kv, hkv⟩ := List.exists_mem_of_length_pos h
+  obtain ⟨h1, h2⟩ := List.mem_filter.mp hkv
+  exact ⟨kv.1, kv.2, alookup_of_mem hn h1, h2⟩
+
+
+/-- the keys of `last_trial_status_seen` are distinct (it is a dict) -/
+def LNInv (s : LState) : Prop := (keys s.status.last).Nodup
+
+theorem LNInv_next (s : LState) (a : Ans) (h : LNInv s) : LNInv (next s a) := by
+  unfold next
+  split
+  all_goals (try simp only [])
+  all_goals (repeat' split)
+  all_goals first
+    | exact h
+    | (show (keys (addRow s).status.last).Nodup; rw [addRow_status]; exact h)
+    | (show (keys (secondItem s _ _ _).status.last).Nodup; rw [secondItem_status]; exact h)
+    | (show (keys (afterUpdate s).status.last).Nodup
+       rw [show (afterUpdate s).status.last = aupdate s.status.last (aupdate s.sd s.done) from update_last _ _ _]
+       exact nodup_keys_aupdate _ _ h)
+    | (show (keys (scheduled s _).status.last).Nodup
+       have hl : ∀ u, (scheduled s u).status.last = aset u .inProgress s.status.last := by
+         intro u; unfold scheduled addRunning; split <;> exact update_last _ _ _
+       rw [hl]; exact nodup_keys_aset _ _ _ h)
+    | (show (keys (TStatus.markStopped s.status).last).Nodup; rw [markStopped_keys]; exact h)
+
+theorem LNInv_run (c : Cfg) (as : List Ans) : LNInv (run (init c) as) :=
+  run_inv (Inv := LNInv) (fun s a h => step_of_next (P := LNInv) (fun _ _ h => h) s a (LNInv_next s a h)) as (init c)
+    (by simp [LNInv, init, keys])
+
+/-- **Exceeding the limit ends the run with an error that names a failed trial.** Under contract
+B: when the `finally` block reaches `_handle_failure` with more than `max_failures` failed
+trials, the run goes on to show the log of a trial `t` whose entry in `done_trials_statuses` is
+`failed` (the first such), and — the two log calls returning — `run()` raises
+`ValueError("Trial - t failed")`. -/
+theorem abort_names_failed (c : Cfg) (as : List Ans) (hB : Along BOk (init c) as)
+    (hp : (run (init c) as).pc = .finMark)
+    (hmax : (run (init c) as).cfg.maxFailures < (run (init c) as).status.markStopped.numFailed) (a : Ans) :
+    ∃ t, alookup t (run (init c) as).doneAll = some .failed ∧
+      pending (step (run (init c) as) a) = .stdout t ∧
+      (step (step (step (run (init c) as) a) .ret) .ret).err = some (.failed t) ∧
+      (step (step (step (run (init c) as) a) .ret) .ret).pc = .done := by
+  have hS := SInv_run c as hB
+  have hL := LNInv_run c as
+  generalize run (init c) as = s at *
+  -- some trial is recorded as failed
+  have hpos : 0 < s.status.markStopped.numFailed := Nat.lt_of_le_of_lt (Nat.zero_le _) hmax
+  obtain ⟨t0, st, hlk, hst⟩ := exists_of_numIn_pos _ _ hpos (by rw [markStopped_keys]; exact hL)
+  have hst' : st = .failed := by simpa using hst
+  subst hst'
+  have hd0 := hS.failedNamed t0 (markStopped_failed _ _ hlk)
+  obtain ⟨hff1, hff2⟩ := firstFailed_spec s.doneAll hS.doneAllNodup
+  have hsome := hff2 ⟨t0, hd0⟩
+  cases hff : firstFailed s.doneAll with
+  | none => rw [hff] at hsome; cases hsome
+  | some t =>
+    have hn : next s a = { s with status := s.status.markStopped, pc := .hfOut, t := t } := by
+      simp only [next, hp, hmax, if_true, hff]
+    have h1 : step s a = { next s a with log := (next s a).log ++ [pending (next s a)] } := by
+      rw [step_eq, hn]; simp [Pc.silent, hp]
+    refine ⟨t, hff1 t hff, ?_, ?_, ?_⟩
+    · rw [h1, hn]; rfl
+    · rw [h1, hn]; simp [step, next, Pc.silent]
+    · rw [h1, hn]; simp [step, next, Pc.silent]
+
+end SyneTune.C13Loop
